@@ -293,16 +293,21 @@ pub fn frame_at(tr: &str, dir: Dir, buf: &[u8]) -> At {
             }
         }
     } else {
+        // the MBAP header is refutable as soon as its bytes are there: no further byte can make a frame start
+        // here once the protocol identifier is seen to be non-zero or the length field contradicts the PDU length
+        if buf.len() >= 4 && (buf[2] != 0 || buf[3] != 0) {
+            return At::Rejected;
+        }
         match predict(7, dir, buf) {
             Err(()) => At::Rejected,
             Ok(None) => At::Incomplete,
             Ok(Some(n)) => {
-                if buf.len() < n + 7 {
-                    At::Incomplete
-                } else if buf[2] == 0 && buf[3] == 0 && (buf[4] as usize) * 256 + buf[5] as usize == n + 1 {
-                    At::Frame(n + 7)
-                } else {
+                if buf.len() >= 6 && (buf[4] as usize) * 256 + buf[5] as usize != n + 1 {
                     At::Rejected
+                } else if buf.len() < n + 7 {
+                    At::Incomplete
+                } else {
+                    At::Frame(n + 7)
                 }
             }
         }
